@@ -548,3 +548,144 @@ M("rb-c01-3-unify-no-zero-bit", ["C01", "C10"], AST, "return signed(max(*signed_
 M("rb-c15-5-field-bits-wrong-offset", ["C15"], "amaranth/lib/data.py", "    mask = ((1 << cast_shape.width) - 1) << field.offset\n    return mask, (value.value << field.offset) & mask", "    mask = ((1 << cast_shape.width) - 1) << field.offset\n    return mask, (value.value << field.width) & mask", "R-15c", base="C15-5")
 M("rb-c19-3-map-name-single-hop", ["C19"], "amaranth/build/dsl.py", '            while ":" in name:', '            if ":" in name:', "R-19c", base="C19-3")
 M("rb-c20-3-caret-allowed", ["C20"], AST, '        if align == "^":\n            raise ValueError(f"Alignment {align!r} is not supported")\n', "", "R-20b", base="C20-3")
+
+# ------------------------------------------------------------------------------------------------ rules added after round 2
+UTILS = "amaranth/utils.py"
+WIRING = "amaranth/lib/wiring.py"
+MEMLIB = "amaranth/lib/memory.py"
+DSLB = "amaranth/build/dsl.py"
+PYCORO = "amaranth/sim/_pycoro.py"
+M("c03-chunks-skip-last-bit", ["C03"], XFRM,
+  '                while start < len(signal):\n                    if ((mask >> start) & 1) == 0:',
+  '                while start < len(signal) - 1:\n                    if ((mask >> start) & 1) == 0:', "R-03f")
+M("c03-chunks-run-stops-early", ["C03"], XFRM,
+  'while stop < len(signal) and ((mask >> stop) & 1) == 1:', 'while stop < len(signal) - 1 and ((mask >> stop) & 1) == 1:', "R-03f")
+M("c03-propagate-overrides-child-domain", ["C03"], IR,
+  '                if domain not in subfrag.domains:\n                    subfrag.add_domains(self.domains[domain])',
+  '                if domain in subfrag.domains:\n                    del subfrag.domains[domain]\n                subfrag.add_domains(self.domains[domain])', "R-03f")
+M("c04-rtlil-late-assign-unwrapped", ["C04"], RTLIL,
+  '        if isinstance(contents[index], Assignment):\n            emit(f"switch {{}}")\n            with emit.indent():\n                emit(f"case")\n                with emit.indent():\n                    while index < len(contents) and isinstance(contents[index], Assignment):\n                        contents[index].emit(emit)\n                        index += 1\n            emit(f"end")\n        else:',
+  '        if False:\n            pass\n        else:', "R-04h")
+M("c05-coro-assign-raw-rhs", ["C05"], PYCORO,
+  'context.set(command.lhs, context._engine.get_value(command.rhs))', 'context.set(command.lhs, command.rhs)', "R-05f")
+M("c05-coro-value-not-read", ["C05"], PYCORO,
+  'response = context._engine.get_value(command)', 'response = command', "R-05f")
+M("c06-whole-signal-shortcut-any", ["C06"], IR,
+  'if len(sig_drivers) == 1 and all(net not in self.netlist.connections for net in lhs):',
+  'if len(sig_drivers) == 1 and any(net not in self.netlist.connections for net in lhs):', "R-06f")
+M("c06-whole-signal-shortcut-unchecked", ["C06"], IR,
+  'if len(sig_drivers) == 1 and all(net not in self.netlist.connections for net in lhs):',
+  'if len(sig_drivers) == 1:', "R-06f")
+M("c07-sigspec-merges-across-wires", ["C07"], RTLIL,
+  '                        self.nets[value[end_pos]] == (wire, bit)):', '                        self.nets[value[end_pos]][0] == wire):', "R-07f")
+M("c07-sigspec-bit-not-advanced", ["C07"], RTLIL,
+  '                    end_pos += 1\n                    bit += 1\n                width = end_pos - begin_pos\n                if width == 1:\n                    chunks.append(f"{wire.name} [{start_bit}]")',
+  '                    end_pos += 1\n                width = end_pos - begin_pos\n                if width == 1:\n                    chunks.append(f"{wire.name} [{start_bit}]")', "R-07f")
+M("c08-edge-waker-dropped-after-mismatch", ["C08"], PYRTL,
+  '        if next == polarity:\n            process.runnable = True\n        return True',
+  '        if next == polarity:\n            process.runnable = True\n            return True', "R-08g")
+M("c11-memory-waker-one-shot", ["C08", "C11"], PYRTL,
+  '    def waker():\n        process.runnable = True\n        return True', '    def waker():\n        process.runnable = True', "R-08g")
+M("c09-signal-attrs-updated-in-place", ["C09"], RTLIL,
+  '            attrs = self.value_attrs.setdefault(value, {})\n            attrs.update(signal.attrs)',
+  '            attrs = self.value_attrs.setdefault(value, signal.attrs)', "R-09d")
+M("c10-ceil-log2-float", ["C10"], UTILS,
+  '    return (n - 1).bit_length()\n', '    import math\n    return math.ceil(math.log2(n))\n', "R-10e")
+M("c11-row-write-without-mask", ["C11"], PYEVAL,
+  'sim.slots[slot].write(lhs._index, rhs << lhs_start, mask)', 'sim.slots[slot].write(lhs._index, rhs << lhs_start)', ["R-11f", "R-05d"])
+M("c11-write-port-gated-by-addr", ["C11"], PYRTL,
+  '                        emitter.append(f"slots[{memory_index}].write({addr}, {data}, {en})")',
+  '                        emitter.append(f"if {addr}:")\n                        with emitter.indent():\n                            emitter.append(f"slots[{memory_index}].write({addr}, {data}, {en})")', "R-11b")
+M("c11-write-port-gated-by-en-benign", ["C11"], PYRTL,
+  '                        emitter.append(f"slots[{memory_index}].write({addr}, {data}, {en})")',
+  '                        emitter.append(f"if {en}:")\n                        with emitter.indent():\n                            emitter.append(f"slots[{memory_index}].write({addr}, {data}, {en})")', "silent")
+M("c12-memory-depth-truthiness", ["C12"], MEMLIB,
+  '            if depth is None:\n                raise ValueError("Either \'data\' or \'depth\' needs to be given")',
+  '            if not depth:\n                raise ValueError("Either \'data\' or \'depth\' needs to be given")', "R-12e")
+M("c14-member-init-wrapped-to-shape", ["C14"], WIRING,
+  'self._init_as_const = Const.cast(init or 0)', 'self._init_as_const = Const(init or 0, self._description)', "R-14e")
+M("c14-compliance-init-low-bits-only", ["C14"], WIRING,
+  'if attr_value_cast.init != member._init_as_const.value:',
+  'if (attr_value_cast.init ^ member._init_as_const.value) & 0xff:', "R-14e")
+M("c18-iovalue-negative-index-no-wrap", ["C18"], AST,
+  "                raise IndexError(f\"Index {key} is out of bounds for a {n}-bit IO value\")\n            if key < 0:\n                key += n\n",
+  "                raise IndexError(f\"Index {key} is out of bounds for a {n}-bit IO value\")\n            if key < 0:\n                key = -key\n", "R-18d")
+M("c18-iovalue-stride-ignores-stop", ["C18"], AST,
+  'return IOConcat((self[i] for i in range(start, stop, step)), src_loc_at=1)', 'return IOConcat((self[i] for i in range(start, n, step)), src_loc_at=1)', "R-18d")
+M("c01-value-stride-ignores-start", ["C01"], AST,
+  'return Cat(self[i] for i in range(start, stop, step))', 'return Cat(self[i] for i in range(0, stop, step))', "R-01i")
+M("c19-pins-map-names-memoised", ["C19"], DSLB,
+  '            mapped_names.append(name)\n        return mapped_names',
+  '            mapped_names.append(name)\n        self.names = mapped_names\n        return mapped_names', "R-19g")
+M("c19-connector-prefix-only-for-string-form", ["C19"], DSLB,
+  '        if conn is not None:\n            conn_name, conn_number = conn\n            if not (isinstance(conn_name, str) and isinstance(conn_number, (int, str))):\n                raise TypeError("Connector must be None',
+  '        if conn is not None and isinstance(io, str):\n            conn_name, conn_number = conn\n            if not (isinstance(conn_name, str) and isinstance(conn_number, (int, str))):\n                raise TypeError("Connector must be None', "R-19f")
+
+# ------------------------------------------------------------------------------------------------ R-08h trigger machinery
+ASYNC_ = "amaranth/sim/_async.py"
+M("c08-edge-waker-any-change-fires", ["C08", "C05"], PYSIM,
+  'if curr_bit == next_bit or next_bit != trigger.polarity:', 'if curr_bit == next_bit:', "R-08h")
+M("c08-edge-waker-watches-bit0", ["C08", "C05"], PYSIM,
+  '            next_bit = (next >> trigger.bit) & 1', '            next_bit = next & 1', "R-08h")
+M("c08-trigger-run-samples-after-wake", ["C08", "C05"], PYSIM,
+  '        self.compute_result()\n        self._combination._process.runnable = True\n        self._combination._process.waits_on = None\n        self._triggers_hit.clear()',
+  '        self._combination._process.runnable = True\n        self._combination._process.waits_on = None\n        self._triggers_hit.clear()\n        self.compute_result()', "R-08h")
+M("c08-trigger-hits-not-cleared", ["C08", "C05"], PYSIM,
+  '        self._combination._process.waits_on = None\n        self._triggers_hit.clear()\n', '        self._combination._process.waits_on = None\n', "R-08h")
+M("c08-activate-while-not-waiting-queues", ["C08"], PYSIM,
+  '        if self._combination._process.waits_on is self:\n            self._active.add(self)\n        else:\n            self._broken = True',
+  '        self._active.add(self)', "R-08h")
+M("c08-engine-commit-stops-at-first-change", ["C08"], PYSIM,
+  '            if state.commit():\n                converged = False\n        self.pending.clear()',
+  '            if state.commit():\n                converged = False\n                break\n        self.pending.clear()', "R-08h")
+M("c08-get-signal-index-after-append", ["C08", "C05"], PYSIM,
+  '            index = len(self.slots)\n            self.slots.append(_PySignalState(signal, self.pending))',
+  '            self.slots.append(_PySignalState(signal, self.pending))\n            index = len(self.slots)', "R-08h")
+M("c05-tick-negedge-domain-waits-posedge", ["C05", "C08"], ASYNC_,
+  'clk_polarity = (1 if self._domain.clk_edge == "pos" else 0)', 'clk_polarity = 1', "R-08h")
+M("c05-tick-rst-sample-position", ["C05", "C08"], ASYNC_,
+  '                .edge(self._domain.clk, clk_polarity)\n                .sample(Const(0))\n                .sample(Const(0) if self._domain.rst is None else self._domain.rst)',
+  '                .edge(self._domain.clk, clk_polarity)\n                .sample(Const(0) if self._domain.rst is None else self._domain.rst)\n                .sample(Const(0))', "silent")
+M("c05-repeat-one-too-many", ["C05", "C08"], ASYNC_,
+  '        for _ in range(count):\n            clk, rst, *values = await tick.__anext__()', '        for _ in range(count + 1):\n            clk, rst, *values = await tick.__anext__()', "R-08h")
+M("c05-edge-trigger-slice-bit0", ["C05", "C08"], ASYNC_,
+  'self.signal, self.bit = cast_signal.value, cast_signal.start', 'self.signal, self.bit = cast_signal.value, 0', "R-08h")
+M("c05-compute-result-raw-bits", ["C05", "C08"], PYSIM,
+  '                if isinstance(trigger.shape, ShapeCastable):\n                    result.append(trigger.shape.from_bits(value))\n                else:\n                    result.append(value)',
+  '                result.append(value)', "R-08h")
+M("c08-trigger-loopvar-renamed-benign", ["C08"], PYSIM,
+  '        for waker, interval_fs in self._delay_wakers.items():\n            self._engine.state.set_delay_waker(interval_fs, waker)',
+  '        for w, fs in self._delay_wakers.items():\n            self._engine.state.set_delay_waker(fs, w)', "silent")
+M("c08-process-flag-cleared-after-run", ["C08"], PYSIM,
+  '                    process.runnable = False\n                    process.run()', '                    process.run()\n                    process.runnable = False', "R-08b")
+
+# ------------------------------------------------------------------------------------------------ R-02i control-flow builder
+DSL_ = "amaranth/hdl/_dsl.py"
+M("c02-elif-test-prepended", ["C02"], DSL_,
+  '            if_data["tests"].append(cond)\n            if_data["bodies"].append(self._statements)\n            if_data["src_locs"].append(src_loc)\n        finally:\n            self.domain._depth -= 1\n            self._statements = _outer_case\n\n    @_guardedcontextmanager("Else")',
+  '            if_data["tests"].insert(0, cond)\n            if_data["bodies"].insert(0, self._statements)\n            if_data["src_locs"].append(src_loc)\n        finally:\n            self.domain._depth -= 1\n            self._statements = _outer_case\n\n    @_guardedcontextmanager("Else")', "R-02i")
+M("c02-else-does-not-close-if", ["C02"], DSL_,
+  '            self.domain._depth -= 1\n            self._statements = _outer_case\n        self._pop_ctrl()\n\n    @contextmanager\n    def Switch',
+  '            self.domain._depth -= 1\n            self._statements = _outer_case\n\n    @contextmanager\n    def Switch', "R-02i")
+M("c02-elif-attaches-to-any-depth", ["C02"], DSL_,
+  '        if if_data is None or if_data["depth"] != self.domain._depth:\n            raise SyntaxError("Elif without preceding If")',
+  '        if if_data is None:\n            raise SyntaxError("Elif without preceding If")', "R-02i")
+M("c02-case-body-not-flushed", ["C02"], DSL_,
+  '            yield\n            self._flush_ctrl()\n            switch_data["cases"].append((new_patterns, self._statements, src_loc))',
+  '            yield\n            switch_data["cases"].append((new_patterns, self._statements, src_loc))', "R-02i")
+M("c02-add-statement-no-flush", ["C02"], DSL_,
+  '        while len(self._ctrl_stack) > self.domain._depth:\n            self._pop_ctrl()\n\n        for stmt in Statement.cast(assigns):',
+  '        for stmt in Statement.cast(assigns):', "R-02i")
+M("c02-add-statement-prepends", ["C02"], DSL_,
+  'self._statements.setdefault(domain, []).append(stmt)', 'self._statements.setdefault(domain, []).insert(0, stmt)', "R-02i")
+M("c02-state-encoding-from-states", ["C02"], DSL_,
+  '        if name not in fsm_data["encoding"]:\n            fsm_name = fsm_data["name"]\n            fsm_data["encoding"][name] = len(fsm_data["encoding"])\n            fsm_data["ongoing"][name] = Signal(name="")\n        try:',
+  '        if name not in fsm_data["encoding"]:\n            fsm_name = fsm_data["name"]\n            fsm_data["encoding"][name] = len(fsm_data["states"])\n            fsm_data["ongoing"][name] = Signal(name="")\n        try:', "R-02i")
+M("c02-next-uses-outermost-fsm", ["C02"], DSL_,
+  'for level, (ctrl_name, ctrl_data) in enumerate(reversed(self._ctrl_stack)):', 'for level, (ctrl_name, ctrl_data) in enumerate(self._ctrl_stack):', "R-02i")
+M("c02-if-depth-not-restored", ["C02"], DSL_,
+  '            if_data["src_locs"].append(src_loc)\n        finally:\n            self.domain._depth -= 1\n            self._statements = _outer_case\n\n    @_guardedcontextmanager("Elif")',
+  '            if_data["src_locs"].append(src_loc)\n            self.domain._depth -= 1\n        finally:\n            self._statements = _outer_case\n\n    @_guardedcontextmanager("Elif")', "R-02i")
+M("c02-if-locals-renamed-benign", ["C02"], DSL_,
+  '            _outer_case, self._statements = self._statements, {}\n            self.domain._depth += 1\n            yield\n            self._flush_ctrl()\n            if_data["tests"].append(cond)\n            if_data["bodies"].append(self._statements)\n            if_data["src_locs"].append(src_loc)\n        finally:\n            self.domain._depth -= 1\n            self._statements = _outer_case\n\n    @_guardedcontextmanager("Elif")',
+  '            saved = self._statements\n            self._statements = {}\n            self.domain._depth += 1\n            yield\n            self._flush_ctrl()\n            if_data["tests"].append(cond)\n            if_data["bodies"].append(self._statements)\n            if_data["src_locs"].append(src_loc)\n        finally:\n            self.domain._depth -= 1\n            self._statements = saved\n\n    @_guardedcontextmanager("Elif")', "silent")
